@@ -66,6 +66,23 @@ func runC01(ctx *core.Ctx) {
 		c := genEvTumbling(core.CaseRef{Stream: "c01", Index: i}, r, 10)
 		execC01(ctx, c)
 	})
+	// back-pressure: more than 100 new-maximum rows are ingested while the trigger goroutine is held up by
+	// a full window output buffer, then the source goes quiet; every complete window must still be emitted
+	nbp := ctx.N(2, 24)
+	ctx.Cases("c01bp", nbp, 8, func(i int, r *rand.Rand) {
+		c := &evCase{CaseRef: core.CaseRef{Stream: "c01bp", Index: i}, Kind: "tumbling", SizeMs: 1000, Pattern: "backpressure", Feed: "burst", Grouped: r.Intn(2) == 0}
+		c.WinOut = 1
+		c.SinkDelayMs = 15 + r.Intn(25)
+		n := 220 + r.Intn(250)
+		t := int64(5000)
+		for j := 1; j <= n; j++ {
+			t += 40 + int64(r.Intn(120))
+			c.Rows = append(c.Rows, evRow{ID: j, TS: t, K: plainKeys[r.Intn(2)], V: r.Intn(50)})
+		}
+		c.Tail = t + 10*c.SizeMs
+		c.buildSQL()
+		execC01(ctx, c)
+	})
 	npt := ctx.N(6, 96)
 	ctx.Cases("c01pt", npt, 8, func(i int, r *rand.Rand) {
 		execC01PT(ctx, core.CaseRef{Stream: "c01pt", Index: i}, r)
